@@ -18,7 +18,7 @@ TRound   == IsEvent("round")   /\ DRound(E.X, E.vec, E.disk, E.zero, E.payloadOk
 TSetBase == IsEvent("setbase") /\ DSetBase(E.file)
 TSameBase == IsEvent("samebase") /\ DSameBase(E.file)
 TFinish  == IsEvent("finish")  /\ DFinish(E.valRet, E.eqB, E.sized)
-TTool    == IsEvent("toolrun") /\ DToolRun(E.status, E.eqB, E.X, E.wholeChunks, E.disk, E.usable, E.sized, E.full)
+TTool    == IsEvent("toolrun") /\ DToolRun(E.status, E.eqB, E.X, E.wholeChunks, E.disk, E.usable, E.sized, E.full, E.must)
 TCrash   == IsEvent("killed")  /\ DCrash
 
 Init == DInit /\ l = 1
